@@ -22,6 +22,9 @@ CHECKS = {
     "C08": dict(spec="ServerDispatch", ref="DESIGN.md §4 C08",
                 text="ServerDispatch models handle_message step by step (lookup, invoke, reply) over message kind x method class (core, tool/resource returning/raising/nonsense/unknown/unhashable, custom ok/raises/nonsense/none, every MessageMethod.NOTIFICATION_* name, unregistered, random) x params shape x id class; TLC checks one-response-per-request, no-response-per-notification, never-raises and the statement's code table exhaustively, on the deviation-free design and on the model of the tree. Every case is then executed against a real MCPServer/ProtocolHandler and TLC judges the observed outcome (and the JSON line a stdio loop would print) against the clauses and against the implementation-shaped prediction (drift).",
                 note="Trusted: TLC; the configured server in harness/drivers/server_drv.py; notification names extracted from MessageMethod. Known finding: a handler returning (None, sid) to a request (pinned by a repository test)."),
+    "C13": dict(spec="Versioning, BatchGate", ref="DESIGN.md §4 C13",
+                text="Versioning defines the numeric order, the string order ProtocolVersion.compare uses and the branch structure of supports_batching over triples; TLC checks on every grid point (quick: 2015..2035, thorough: the whole 2.1 M grid) that the orders agree, that the decision is 'older than 2025-06-18', that the code's branches implement it and that it is monotone. The real supports_batching, BatchProcessor and ProtocolVersion.compare are evaluated on all 2 100 000 strings in both tiers and TLC checks their run-length encoded decision vectors index by index. BatchGate specifies the transport rule (reject the whole batch with one -32600 / deliver valid members in order, drop invalid ones alone, version changes at any time); TLC checks its action properties and generates scripts that, with seeded longer ones, run against the real StdioClient behind a scripted process seam; each step's deliveries, notifications and bytes to the child are validated against the specification.",
+                note="Trusted: TLC, the process seam (anyio.open_process replaced), the virtual clock. A trace the BatchGate specification cannot follow is a violation at that step (the specification is the statement)."),
     "C14": dict(spec="RequestWait", ref="DESIGN.md §4 C14",
                 text="Same specification as C01 with cancellation tokens, progress callbacks and traffic patterns; deadline, cancellation-promptness, single-cancel-notification and exact-progress clauses are invariants checked by TLC on the model and on every recorded execution (including floods every 10 ms).",
                 note="Trusted: TLC, the virtual clock (anyio deadlines are loop timers). Time is virtual; real-time scheduling jitter is out of scope."),
